@@ -260,7 +260,9 @@ def __order_clauses(c: Formula) -> int:
     if isinstance(c, And) or isinstance(c, Or):
         return 0
     elif isinstance(c, Not):
-        return c.c
+        # The negated formula is not necessarily a variable yet (e.g. a double negation
+        # that De Morgan's laws have not reached), so order by what is inside.
+        return __order_clauses(c.c)
     else:
         return c
 
